@@ -51,6 +51,7 @@ type pev struct {
 	chain     int
 	viaRef    int // path walks that passed a reference-valued setting
 	cycInWalk int // walks failing because a setting on the path is cyclic
+	finalCyc  int // references whose own path met a cyclic setting at its last step
 }
 
 const pevStepLimit = 3000
@@ -146,8 +147,11 @@ func (p *pev) evalRef(name string, st []string) pval {
 		return perr("cyclic")
 	}
 	st2 := push(st, name)
-	n, fail, _ := p.walk(name, st2)
+	n, fail, final := p.walk(name, st2)
 	if fail != nil {
+		if fail.cyclic && final {
+			p.finalCyc++
+		}
 		if _, known := p.res[name]; known && fail.kind != "missing" {
 			// a resolver knows a name whose path fails on the way: whether the
 			// resolver is asked depends on where the failure is met
